@@ -18,5 +18,6 @@ CONSTANTS
   Coarse = FALSE
   MutPrecedence = TRUE
   MutNoCatch = FALSE
+  MutKilledEscapes = FALSE
   KilledMayRaise = FALSE
 INVARIANTS VerdictIsPrecedence
